@@ -534,6 +534,25 @@ func panicWith(text string) {
 
 type ctxKey string
 
+// streamTo hands every chunk the reader yields to the writer. It prefers the writer's ReadFrom as io.Copy does, but unlike io.Copy it goes on after a failed Write (the
+// scripts of the model write all they have whether the client is still there or not).
+func streamTo(w io.Writer, r io.Reader) {
+	if rf, ok := w.(io.ReaderFrom); ok { // as io.Copy prefers it
+		rf.ReadFrom(r)
+		return
+	}
+	buf := make([]byte, 1024)
+	for {
+		n, err := r.Read(buf)
+		if n > 0 {
+			w.Write(buf[:n])
+		}
+		if err != nil {
+			return
+		}
+	}
+}
+
 func runHTTPActions(l []Action, w http.ResponseWriter) {
 	for _, a := range l {
 		switch a.Kind {
@@ -545,7 +564,7 @@ func runHTTPActions(l []Action, w http.ResponseWriter) {
 		case 2:
 			if len(a.A)%3 == 1 {
 				// the same bytes streamed from a reader that hands over its last bytes together with io.EOF
-				io.Copy(w, iotest.DataErrReader(strings.NewReader(a.A)))
+				streamTo(w, iotest.DataErrReader(strings.NewReader(a.A)))
 			} else {
 				w.Write([]byte(a.A))
 			}
